@@ -26,6 +26,8 @@ KFW == K("file", 1, 2)   KDW == K("directory", 2, 1)   KPW == K("proxy", 2, 3)  
 
 PatsQ == {P_a, P_sl, P_dsl}
 PatsT == {P_a, P_sl, P_dsl, P_any, P_dst}
+PatsM == {P_a, P_sl, P_dsl, P_any}
+KindsM == {KF1, KD1, KR1, KR2, KW1, KWD, KFW}
 PatsG == {P_a, P_b, P_sl, P_dsl, P_any, P_dst, P_sta, P_da}
 PathsQ == {T_a, T_b, T_da}
 PathsT == {T_a, T_b, T_da, T_root}
@@ -77,16 +79,16 @@ Step(op) == [op |-> op, rq |-> [kind |-> "http", hh |-> FALSE, host |-> <<>>, pa
 \* the standard session: every request of the bound on a connection of its own, then kept-alive connections that
 \* repeat a path (cache hit), switch host on the same path (cache key), hang up; a non-HTTP request; and, when the
 \* configuration has a timeout, a silent connection; `sat`: one more request while all workers are held
+ReqSeq == SeqOf(Reqs)   PathSeq == SeqOf(Paths)   ReqHostSeq == SeqOf(ReqHosts)
+Singles == [i \in 1..Len(ReqSeq) |-> <<[op |-> ReqSeq[i].kind, rq |-> ReqSeq[i], ka |-> FALSE]>>]
+KaConns ==
+  LET ps == PathSeq  hs == ReqHostSeq IN
+  [i \in 1..Len(hs) |-> <<Http(hs[i], ps[1], TRUE), Http(hs[i], ps[1], TRUE), Http(hs[i], ps[Len(ps)], TRUE), Step("hangup")>>]
+  \o <<<<Http(hs[1], ps[1], TRUE), Http(hs[Len(hs)], ps[1], TRUE), Http(hs[1], ps[1], FALSE)>>>>
 StdConns(c, sat) ==
-  LET rs == SeqOf(Reqs)
-      ps == SeqOf(Paths)
-      hs == SeqOf(ReqHosts)
-      singles == [i \in 1..Len(rs) |-> <<[op |-> rs[i].kind, rq |-> rs[i], ka |-> FALSE]>>]
-      kaSame == [i \in 1..Len(hs) |-> <<Http(hs[i], ps[1], TRUE), Http(hs[i], ps[1], TRUE), Http(hs[i], ps[Len(ps)], TRUE), Step("hangup")>>]
-      kaCross == <<<<Http(hs[1], ps[1], TRUE), Http(hs[Len(hs)], ps[1], TRUE), Http(hs[1], ps[1], FALSE)>>>>
-  IN singles \o kaSame \o kaCross \o <<<<Step("bad")>>>>
+  Singles \o KaConns \o <<<<Step("bad")>>>>
      \o (IF c.timeout > 0 THEN <<<<Step("idle")>>>> ELSE <<>>)
-     \o (IF sat THEN <<<<[op |-> "sat", rq |-> Http(hs[1], ps[1], FALSE).rq, ka |-> FALSE]>>>> ELSE <<>>)
+     \o (IF sat THEN <<<<[op |-> "sat", rq |-> Http(ReqHostSeq[1], PathSeq[1], FALSE).rq, ka |-> FALSE]>>>> ELSE <<>>)
 
 Inv_ServeIsCode == \A rq \in Reqs : ServeIsCode(cfg, rq)
 Inv_RouteOrderRespected == \A rq \in Reqs : RouteOrderRespected(cfg, rq)
@@ -94,9 +96,9 @@ Inv_HostOrderRespected == \A rq \in Reqs : HostOrderRespected(cfg, rq)
 Inv_RedirectExact == \A rq \in Reqs : RedirectExact(cfg, rq)
 Inv_WsProxiedIffConfigured == \A rq \in Reqs : WsProxiedIffConfigured(cfg, rq)
 Inv_IndependentOfRest == \A rq \in Reqs : IndependentOfRest(cfg, rq)
-Inv_LogMasks == LogLevelMonotone /\ MaskExact /\ NoSilentDrop /\ SeverityIsFirstLevel
-Inv_LinesMonotone == \A t \in {0, 1} : LinesMonotone(Session([cfg EXCEPT !.timeout = t], StdConns([cfg EXCEPT !.timeout = t], TRUE)).ems)
-Inv_CacheCoherent == CacheCoherent(cfg, StdConns(cfg, FALSE))
+Inv_LogMasks == cfg.level \in Levels /\ LogLevelMonotone /\ MaskExact /\ NoSilentDrop /\ SeverityIsFirstLevel
+Inv_LinesMonotone == LET c == [cfg EXCEPT !.timeout = 1, !.cache = TRUE] IN LinesMonotone(Session(c, StdConns(c, TRUE)).ems)
+Inv_CacheCoherent == CacheCoherent(cfg, KaConns)
 Inv_RoutesWellFormed == /\ \A k \in 1..Len(cfg.def) : RouteOK(cfg.def[k])
                         /\ \A i \in 1..Len(cfg.hosts) : \A k \in 1..Len(cfg.hosts[i].routes) : RouteOK(cfg.hosts[i].routes[k])
 
@@ -113,15 +115,30 @@ Weight(c) == SumSeq([k \in 1..Len(c.def) |-> (7 * k + 3) * RouteCode(c.def[k])])
                         + SumSeq([j \in 1..Len(c.hosts[i].routes) |-> (11 * j + 1) * RouteCode(c.hosts[i].routes[j])]))])
              + 13 * c.dws + (IF c.cache THEN 17 ELSE 0)
 
-GenRes == atoi(IOEnv.GEN_RES)
+\* a seeded family of configurations: CfgOf(n) for n = GEN_BASE .. GEN_BASE + GEN_COUNT - 1 (deterministic in n)
+GenBase == atoi(IOEnv.GEN_BASE)
+GenCount == atoi(IOEnv.GEN_COUNT)
+Rnd(n, t) == LET x == (n * 7919 + t * 31337 + 17) % 65537 IN (((x * 75 + 74) % 65537) * 75 + 74) % 65537
 LevelSeq == <<"error", "warn", "info", "debug">>
-\* the settings Serve does not read, varied with the sample
-Dress(c) == LET w == Weight(c) + GenRes IN
-            [c EXCEPT !.level = LevelSeq[(w % 4) + 1],
-                      !.threads = 1 + ((w \div 4) % 3),
-                      !.timeout = IF (w \div 12) % 5 = 0 THEN 1 ELSE 0,
-                      !.console = (w \div 60) % 3 # 1,
-                      !.file = (w \div 60) % 3 # 2]
+\* `host "*"` (D5: the server does not start) is drawn rarely
+GenHostPats == <<HP_1, HP_hs, HP_s1, HP_2, HP_1, HP_hs, HP_s1, HP_2, HP_1, HP_hs, HP_s1, HP_2, HP_1, HP_hs, HP_s1, HP_2, HP_1, HP_hs, HP_s1, HP_2, HP_1, HP_hs, HP_star>>
+\* every third route or so repeats the body of the one before it (the harness may then write both as one `route p1, p2 {`)
+GenRoute(n, t) == LET tk == IF Rnd(n, t + 2000) % 3 = 0 THEN t - 1 ELSE t IN
+                  Route(PatSeq[(Rnd(n, t) % Len(PatSeq)) + 1], KindSeq[(Rnd(n, tk + 1000) % Len(KindSeq)) + 1])
+CfgOf(n) ==
+  LET nd == Rnd(n, 1) % (MaxDef + 1)
+      nh == Rnd(n, 2) % (MaxHosts + 1)
+      w == Rnd(n, 5)
+  IN [def |-> [k \in 1..nd |-> GenRoute(n, 10 + k)],
+      hosts |-> [i \in 1..nh |-> [pat |-> GenHostPats[(Rnd(n, 30 + i) % Len(GenHostPats)) + 1],
+                                  routes |-> [j \in 1..(Rnd(n, 40 + i) % (MaxHostRoutes + 1)) |-> GenRoute(n, 100 + 10 * i + j)]]],
+      dws |-> <<0, 0, 1, 3>>[(Rnd(n, 3) % 4) + 1],
+      cache |-> Rnd(n, 4) % 2 = 0,
+      level |-> LevelSeq[(w % 4) + 1],
+      threads |-> 1 + ((w \div 4) % 3),
+      timeout |-> IF (w \div 12) % 5 = 0 THEN 1 ELSE 0,
+      console |-> (w \div 60) % 3 # 1,
+      file |-> (w \div 60) % 3 # 2]
 WithSat(c) == (Weight(c) \div 7) % 4 = 0
 
 \* pump scripts (byte values 0..255).  RFC 6455 5.7: masked text frame "Hello", unmasked text frame "Hello"
@@ -139,7 +156,7 @@ PumpScript(v) ==
       ELSE <<Ev("csend", CloseMasked, FALSE), Ev("cclose", <<>>, FALSE), Obs("tgot"), Obs("teof")>>)
 
 GenRecord(c0) ==
-  LET c == Dress(c0)
+  LET c == c0
       conns == StdConns(c, WithSat(c0))
       s == Session(c, conns)
   IN [cfg |-> c, startup |-> Startup(c),
@@ -152,7 +169,10 @@ GenRecord(c0) ==
                           model |-> a, exp |-> ObsOf(a),
                           status |-> StatusOf(a),
                           pump |-> IF a.cls = "proxied" THEN PumpExpect(PumpScript(i + j)) ELSE <<>>]]],
-      lines |-> CountLines(c.level, s.ems)]
+      flines |-> SinkLines(c, "file", s.ems), clines |-> SinkLines(c, "console", s.ems)]
 
-GenInv == (Weight(cfg) + GenRes) % GenMod = 0 => PrintT(ToJson(GenRecord(cfg)))
+GenInit == /\ \E n \in GenBase..(GenBase + GenCount - 1) : cfg = CfgOf(n)
+           /\ pm = PumpInit
+GenNext == FALSE /\ UNCHANGED vars
+GenInv == PrintT(ToJson(GenRecord(cfg)))
 =============================================================================
